@@ -58,7 +58,7 @@ func c05Script(p c05Proc) string {
 func C05(c *Ctx) *kf.Report {
 	rep := &kf.Report{Property: "C05", Level: "model_checking", Coverage: map[string]any{}}
 	rep.Assumptions = []string{
-		"exception fixtures: Base, ErrA extends Base implements Marked, ErrA2 extends ErrA, ErrB extends Base, Other; every block prints entry/exit markers and catch blocks print getMessage() of the caught object",
+		"exception fixtures: Base, ErrA extends Base implements Marked, ErrA2 extends ErrA, ErrB extends Base implements Rooted, Other; interfaces Marked extends Tagged extends Rooted; every block prints entry/exit markers and catch blocks print getMessage() of the caught object",
 		"identity of the caught object is observed through its message (unique per throw site)",
 		"the exit-status clause is replayed in real subprocesses of bin/origami built from the working tree",
 	}
@@ -148,7 +148,7 @@ func C05(c *Ctx) *kf.Report {
 	rep.Coverage["evaluations"] = compared + procs
 	rep.Coverage["distinct_nontrivial"] = nTry
 	rep.Coverage["exhaustive"] = true
-	rep.Coverage["rule"] = "every depth-1 try shape (body exit x ordered catch list over a 5-class hierarchy with an interface x catch-body exit x finally exit x context top/loop/function) enumerated completely, depth-2 nestings seeded; each run by TLC on Lang.tla (FinallyOnce, AllTriesLeft checked on every state) and on the real interpreter; every Process.tla path (ending x tokens echoed before it) replayed as a real subprocess in both lexing modes, stdout / diagnostic / exit status compared"
+	rep.Coverage["rule"] = "every depth-1 try shape (body exit x ordered catch list over a 5-class hierarchy with a 3-deep interface chain Marked<Tagged<Rooted x catch-body exit x finally exit x context top/loop/function/recursive-from-try/recursive-from-catch, where the recursive contexts re-enter the same try statement while outer activations are open) enumerated completely, depth-2 nestings seeded; each run by TLC on Lang.tla (FinallyOnce, AllTriesLeft checked on every state) and on the real interpreter; every Process.tla path (ending x tokens echoed before it) replayed as a real subprocess in both lexing modes, stdout / diagnostic / exit status compared"
 	if len(progs) > 0 {
 		rep.Coverage["samples"] = []any{map[string]any{"tags": progs[len(progs)/2].Tags, "source": progs[len(progs)/2].Source("")}}
 	}
